@@ -48,18 +48,18 @@ MIN_COUNTERS = {
         "property_objects_checked": 80,
     },
     "thorough": {
-        "programs": 700,
-        "pruned_programs": 400,
-        "unpruned_accepted_scenes": 55000,
-        "membership_checks": 45000,
-        "pruned_draw_checks": 25000,
-        "fired_pruneContainment": 250,
-        "fired_pruneRelativeHeading": 90,
-        "fired_pruneVisibility": 120,
-        "productive_pruneContainment": 120,
-        "productive_pruneRelativeHeading": 40,
-        "productive_pruneVisibility": 50,
-        "property_objects_checked": 900,
+        "programs": 580,
+        "pruned_programs": 330,
+        "unpruned_accepted_scenes": 45000,
+        "membership_checks": 38000,
+        "pruned_draw_checks": 20000,
+        "fired_pruneContainment": 200,
+        "fired_pruneRelativeHeading": 75,
+        "fired_pruneVisibility": 100,
+        "productive_pruneContainment": 100,
+        "productive_pruneRelativeHeading": 30,
+        "productive_pruneVisibility": 40,
+        "property_objects_checked": 750,
     },
 }
 
@@ -876,7 +876,7 @@ class _Ctx:
 
 def plan(tier, seed):
     n = 16 if tier == "quick" else 64
-    per = 5 if tier == "quick" else 12
+    per = 5 if tier == "quick" else 10
     return [{"shard": i, "programs": per, "timeout": 900 if tier == "quick" else 2400} for i in range(n)]
 
 
